@@ -48,6 +48,13 @@ func mirrorExec(c *Ctx, op string) {
 			defer syscall.Unmount(tgt, syscall.MNT_DETACH)
 		}
 	}
+	tgtBlocked := strings.HasSuffix(tgtKind, "#") // the target's final address cannot be created: the commit step (mkdir / rename) fails
+	tgtKind = strings.TrimSuffix(tgtKind, "#")
+	tgtOther := strings.HasSuffix(tgtKind, "+") // the target warehouse received a mirror of another ware earlier
+	tgtKind = strings.TrimSuffix(tgtKind, "+")
+	if tgtKind != "ca" {
+		tgtBlocked = false // at a single-file address nothing can stand in the way but an object *at* the address
+	}
 	ctx := context.Background()
 	pf := api.MustParseFilesetPackFilter(losslessPackStr)
 	uf := api.MustParseFilesetUnpackFilter(losslessUnpackStr)
@@ -154,6 +161,29 @@ func mirrorExec(c *Ctx, op string) {
 			srcSnap[dir] = sn.Digest(true)
 		}
 	}
+	tgtSnap := ""
+	if tgtBlocked {
+		fin := storedWarePath(tgtKind, tgt, id)
+		if tgtKind == "ca" {
+			// a regular file where a shard directory has to go (first or second level, by the ware's hash)
+			blk := filepath.Dir(fin)
+			if id.Hash[len(id.Hash)-1]%2 == 0 {
+				blk = filepath.Dir(blk)
+			} else {
+				os.MkdirAll(filepath.Dir(blk), 0755)
+			}
+			os.WriteFile(blk, []byte("blocker"), 0644)
+		}
+		if sn, e := Snapshot(tgt); e == nil {
+			tgtSnap = sn.Digest(true)
+		}
+	}
+	if tgtOther {
+		// history: the other ware was mirrored into the same target before (through the real Mirror)
+		safeCall(func() (api.WareID, error) {
+			return fn.mirror(ctx, oid, whAddr(tgtKind, tgt), []api.WarehouseLocation{whAddr("ca", master)}, rio.Monitor{})
+		})
+	}
 	// which source is picked: the model's pick
 	c.EmitR(op+" #pick", "pick 0 "+strings.Join(pickToks, ";"), pickOnly(id, sources))
 	_, err1, pan1 := safeCall(func() (api.WareID, error) {
@@ -170,9 +200,36 @@ func mirrorExec(c *Ctx, op string) {
 	final := storedWarePath(tgtKind, tgt, id)
 	_, ferr := os.Lstat(final)
 	// ---- C13 oracle
+	if tgtBlocked {
+		c.H("res:target-blocked")
+		if res == "ok" {
+			c.PropFail("mirror-accepted-bad", "mirror reported success although the target's final address cannot be created", op)
+		}
+		// a failed mirror creates nothing: the target is exactly as it was (no staging file, no partial shard directories with content)
+		if sn, e := Snapshot(tgt); e == nil && sn.Digest(true) != tgtSnap {
+			left := ""
+			filepath.Walk(tgt, func(p string, fi os.FileInfo, _ error) error {
+				if fi != nil && strings.HasPrefix(fi.Name(), ".tmp.upload") {
+					left = p
+				}
+				return nil
+			})
+			if left != "" {
+				c.PropFail("mirror-staging-left", "a mirror whose commit failed left its staging file behind: "+strings.TrimPrefix(left, base), op)
+			}
+		}
+	}
+	otherAtAddr := tgtOther && tgtKind == "file" // the single-file address holds the other ware: see mirror-noop-other-ware below
+	switch {
+	case otherAtAddr:
+		firstHolder = "skip"
+	}
 	switch firstHolder {
+	case "skip":
 	case "good":
-		if res != "ok" && tgtFull {
+		if tgtBlocked {
+			// covered above
+		} else if res != "ok" && tgtFull {
 			c.H("res:target-full")
 			if ferr == nil {
 				c.PropFail("mirror-target-polluted", "a mirror that ran out of space left an object at the target's final address", op)
@@ -184,7 +241,7 @@ func mirrorExec(c *Ctx, op string) {
 		if res == "ok" {
 			c.PropFail("mirror-accepted-bad", fmt.Sprintf("mirror succeeded although the first holder is %q", firstHolder), op)
 		}
-		if ferr == nil {
+		if ferr == nil && !tgtBlocked {
 			c.PropFail("mirror-target-polluted", "a failed mirror left an object at the target's final address", op)
 		}
 	}
@@ -229,7 +286,9 @@ func mirrorExec(c *Ctx, op string) {
 		id3, err3, pan3 := safeCall(func() (api.WareID, error) {
 			return fn.unpack(ctx, id, dst, uf, rio.Placement_Direct, []api.WarehouseLocation{whAddr(tgtKind, tgt)}, rio.Monitor{})
 		})
-		if resTok(id3, err3, pan3) != "ok "+id.Hash {
+		if resTok(id3, err3, pan3) != "ok "+id.Hash && tgtOther && tgtKind == "file" {
+			c.PropFail("mirror-noop-other-ware", "mirror of W into a single-file target that holds another ware (mirrored there earlier) reports success as a no-op; the target still serves the other ware: "+resTok(id3, err3, pan3), op)
+		} else if resTok(id3, err3, pan3) != "ok "+id.Hash {
 			c.PropFail("mirror-not-served", "unpack from the mirror target alone failed: "+resTok(id3, err3, pan3), op)
 		} else if got, e := Snapshot(dst); e != nil || got.Digest(true) != truncateForFormat(fsx).Digest(true) {
 			c.PropFail("mirror-not-identical", "the fileset unpacked from the target differs from the original", op)
@@ -304,6 +363,10 @@ func mirrorEngine(c *Ctx) {
 		tk := []string{"ca", "file"}[c.Intn(2)]
 		if c.Chance(1, 4) {
 			tk += "!"
+		} else if c.Chance(1, 4) || k == 1 || k == 4 {
+			tk = "ca#"
+		} else if c.Chance(1, 5) || k == 2 || k == 7 {
+			tk += "+"
 		}
 		mirrorExec(c, fmt.Sprintf("mirror %s %s %s %s", fmtName, tk, strings.Join(cs, ","), filesetTok(fsx)))
 	}
